@@ -16,9 +16,11 @@ recorded for this property.  What is *not* modelled but taken as a parameter (`E
   window, owner/type/labels/signer/tag checks and the signature itself — property C06),
 * `nsec`    — `verify_nsec` / `verify_nsec3` on the selected records (properties C08 / C09).
 
-The per-record TTL adjustment and the `ValidationCache` are not modelled (C06); the cache is
-transparent here because the upstream is a function of the query and a verdict does not depend on
-the depth at which it is computed, as long as the depth backstop is not hit.
+The per-record TTL adjustment and the `ValidationCache` are not modelled (C06).  The model corresponds
+to the validator with the cache switched off (`validation_cache_size(0)`), which is how the harness
+runs the implementation for the comparison; it runs every case a second time with the default cache
+and evaluates the property's oracle on both outcomes.  The cache is visible only in validation loops
+that run into the depth backstop (a verdict computed with little depth left is reused where more is left).
 
 Names are lists of lower-case labels (leftmost first, `[]` is the root); the harness generates
 lower-case names only.  Fuel = the code's `request_depth` budget: `validate (max_request_depth + 1) 0`.
